@@ -29,6 +29,21 @@ class Txt:
     def __repr__(self):
         return "Txt" + repr(list(self.pieces))[:200]
 
+    def as_val(self, ex, st):
+        """Text as an uninterpreted term: concatenation of its pieces (equal piece lists give equal terms)."""
+        parts = []
+        for pc in self.pieces:
+            if pc[0] == "lit":
+                parts.append(ex.to_val(st, StrC(pc[1])))
+            elif pc[0] == "rep":
+                parts.append(ex.uf("txt:rep:" + pc[1], z3.BitVecSort(64), Val)(pc[2]) if z3.is_bv(pc[2]) else ex.uf("txt:rep:" + pc[1], Val, Val)(ex.to_val(st, pc[2])))
+            else:
+                parts.append(ex.to_val(st, pc[1]))
+        t = z3.Const("txt:empty", Val)
+        for q in parts:
+            t = ex.uf("txt:cat", Val, Val, Val)(t, q)
+        return t
+
 
 def as_pieces(ex, st, v):
     v = mirsym._deref_val(ex, st, v)
